@@ -46,6 +46,9 @@ def plan(tier, seed):
         specs.append({"name": f"rand{i}", "kind": "rand", "index": i, "cases": per,
                       "budget_s": 60 if tier == "quick" else 420})
     specs.append({"name": "sweep", "kind": "sweep"})
+    # one PRF object and one hash object shared by four threads (different keys / messages), forced thread switches
+    specs.append({"name": "shared-by-threads", "kind": "threads", "primitive_monitors": False,
+                  "rounds": 6 if tier == "quick" else 200, "budget_s": 60 if tier == "quick" else 300})
     specs.append({"name": "contracts", "kind": "contracts"})
     if tier == "thorough":
         specs.append({"name": "repo-tests", "kind": "repo_tests", "primitive_monitors": False})
@@ -175,6 +178,56 @@ def run_shard(spec, acc, ctx):
         repotests.run(acc, ctx, ["test/test_sse_schemes/test_CJJ14_PiPtr.py", "test/test_sse_schemes/test_ANSS16_Scheme3.py"],
                       ["insitu:prf"])
         return
+    if kind == "threads":
+        import os
+        import threading
+        from vlib import instrument
+        repo = os.environ.get("VERIF_REPO", "/repo")
+        for rnd in range(spec["rounds"]):
+            if ctx.out_of_time():
+                break
+            digest = PRF_DIGESTS[rnd % len(PRF_DIGESTS)]
+            n = rng.choice([16, 20, 33, 64, 100])
+            f = prf_mod.get_prf_implementation("HmacPRF")(output_length=n, hash_func_name=digest)
+            h = hash_mod.get_hash_implementation(digest)(output_length=n)
+            keys = [rng.randbytes(rng.choice([16, 32, 64])) for _ in range(4)]
+            msgs = [[rng.randbytes(rng.randint(0, 60)) for _ in range(10)] for _ in range(4)]
+            want = [[(ref_p_hash(keys[i], m, n, digest), ref_hash(m, n, digest)) for m in msgs[i]] for i in range(4)]
+            bad = []
+            done = [0]
+            stop = threading.Event()
+
+            def worker(i):
+                def go():
+                    for rep in range(3):
+                        for j, m in enumerate(msgs[i]):
+                            if stop.is_set():
+                                return
+                            try:
+                                got = (f(keys[i], m), h(m))
+                            except Exception as e:
+                                got = repr(e)
+                            if got != want[i][j]:
+                                bad.append((i, j, "PRF" if not isinstance(got, tuple) or got[0] != want[i][j][0] else "hash"))
+                                stop.set()
+                                return
+                            done[0] += 1
+                return go
+            with instrument.YieldInjector(repo, every=2) as yi:
+                errs = instrument.run_threads([worker(i) for i in range(4)], timeout=60)
+            acc.count("threads.calls_compared", done[0])
+            acc.count("threads.forced_switch_points", yi.yields)
+            acc.count("cases")
+            acc.add("distinct", fp("threads", rnd))
+            if any(isinstance(e, TimeoutError) for e in errs):
+                acc.count("threads.watchdog")
+            if bad:
+                i, j, which = bad[0]
+                acc.violation(f"{'prf' if which == 'PRF' else 'hash'}:wrong-when-shared-by-threads",
+                              f"four threads share one {which} object ({digest}, {n} bytes): thread {i}'s output for its "
+                              f"message {j} differs from the reference", {"digest": digest, "n": n, "threads": True})
+                return
+        return
     if kind == "rand":
         seen_prf, seen_hash = {}, {}
         fixed_klen = rng.choice([16, 24, 32])
@@ -275,6 +328,8 @@ def replay(case, acc, ctx):
 def finish(m, tier, seed):
     c = m["counters"]
     inc = []
+    if c.get("threads.calls_compared", 0) < 100:
+        inc.append("the shared-by-threads workload observed too little")
     if c.get("prf.cases", 0) < 3000 or c.get("hash.cases", 0) < 3000:
         inc.append("fewer than 3000 PRF/hash comparisons")
     for d in HASH_DIGESTS:
@@ -294,6 +349,7 @@ def finish(m, tier, seed):
                 "sweep shard: every output length 1..200 for each digest; contract shard: declared key/message lengths "
                 "off by +-1. Every case evaluates the oracle; distinct = distinct generator coordinates.",
         "exhaustive": False,
+        "objects_shared_by_four_threads": {k[8:]: v for k, v in c.items() if k.startswith("threads.")},
         "prf_digests": sorted(m["sets"].get("prf_digests", [])),
         "hash_digests": sorted(m["sets"].get("hash_digests", [])),
         "prf_output_lengths_seen": len(m["sets"].get("prf_out_lens", [])),
